@@ -289,7 +289,7 @@ func (e *Engine) get(c *ctx, v ssa.Value) Value {
 	case *ssa.Builtin:
 		unsupported("builtin %s as value", x.Name())
 	}
-	r, ok := c.fi.reg[v]
+	r, ok := c.fi.reg[vkey(v)]
 	if !ok {
 		unsupported("no register for %s in %s", v.Name(), c.fi.fn)
 	}
@@ -297,7 +297,7 @@ func (e *Engine) get(c *ctx, v ssa.Value) Value {
 }
 
 func (e *Engine) set(c *ctx, v ssa.Value, val Value) {
-	c.regs[c.fi.reg[v]] = val
+	c.regs[c.fi.reg[vkey(v)]] = val
 }
 
 func flat(v Value) []Value {
@@ -406,11 +406,11 @@ func (e *Engine) call(fi *FnInfo, st *State, args []Value) []Result {
 	act := &Activation{fi: fi, mark: len(st.allocLog)}
 	regs := e.getRegs(fi)
 	for i, p := range fi.fn.Params {
-		regs[fi.reg[p]] = args[i]
+		regs[fi.reg[vkey(p)]] = args[i]
 	}
 	if len(fi.fn.FreeVars) > 0 {
 		for i, fv := range fi.fn.FreeVars {
-			regs[fi.reg[fv]] = args[len(fi.fn.Params)+i]
+			regs[fi.reg[vkey(fv)]] = args[len(fi.fn.Params)+i]
 		}
 	}
 	c := &ctx{act: act, fi: fi, blk: 0, st: st, regs: regs}
@@ -428,7 +428,7 @@ func (e *Engine) call(fi *FnInfo, st *State, args []Value) []Result {
 			regs := e.getRegs(fi)
 			n := 0
 			for _, ph := range bi.phis {
-				regs[fi.reg[ph]] = it.vec[n]
+				regs[fi.reg[vkey(ph)]] = it.vec[n]
 				n++
 			}
 			for _, r := range bi.liveIn {
